@@ -642,9 +642,13 @@ def stepOp (wrong : Bool) (d : DState) (op : List String) (out : String) : DStat
     | some (d1, _) => ({ d1 with mon := mon }, (failsToVerdict fs).getD .ok)
     | none =>
       let (d1, toks) := cands.headD (d, [])
+      let mstr := if toks.isEmpty then "-" else " ".intercalate toks
+      -- a monitor failure on the line where model and implementation part ways: keep the fact of the
+      -- divergence in the verdict (a property this run is attached to may not count the monitor's tag)
       let v : Verdict := match failsToVerdict fs with
+        | some (.monitorFail t dt) => .monitorFail t (dt ++ " ;; also-diverged: model=" ++ mstr)
         | some v => v
-        | none => .diverge (if toks.isEmpty then "-" else " ".intercalate toks) out
+        | none => .diverge mstr out
       ({ d1 with mon := mon, lost := true }, v)
   | _ => (d, .bad "unknown op")
 
